@@ -84,9 +84,9 @@ void lemma_retire_clock(void) {
 }
 /* loop contract for DynamicMeta::set_block_size (unbounded route; replaces the width-bounded unwinding) */
 //@loop VD_DynamicMeta_set_block_size 1
-//@  __CPROVER_assigns(@l1@, self->_block_mask, self->_block_mask_bits)
-//@  __CPROVER_loop_invariant(self->_block_mask_bits <= 31 && @l1@ == (1U << self->_block_mask_bits) && self->_block_mask == @l1@ - 1)
-//@  __CPROVER_loop_invariant(self->_block_mask_bits == 0 || (unsigned long)(@l1@ >> 1) < @p1@)
+//@  __CPROVER_assigns(@l1:block_size@, self->_block_mask, self->_block_mask_bits)
+//@  __CPROVER_loop_invariant(self->_block_mask_bits <= 31 && @l1:block_size@ == (1U << self->_block_mask_bits) && self->_block_mask == @l1:block_size@ - 1)
+//@  __CPROVER_loop_invariant(self->_block_mask_bits == 0 || (unsigned long)(@l1:block_size@ >> 1) < @p1:block_size_hint@)
 //@  __CPROVER_decreases(32 - self->_block_mask_bits)
 //@end
 #endif
